@@ -381,15 +381,17 @@ def _needles(eval_spec):
 def _py_denial_ok(case, eval_spec, obs):
     """direct reading of the statement, for denials the model does not render (str() outside Value.py_str)."""
     msgs = _msgs(obs)
-    if len(msgs) != 2 or msgs[0][0] != "start" or msgs[1] != ["body", FORBIDDEN_S] or msgs[0][1] != 403:
-        return False
     want = [["content-type", "application/json; charset=utf-8"], ["content-length", str(len(FORBIDDEN))]]
     if case["add_headers"]:
         for f, name in DIAG:
             v = eval_spec["d"].get(f)
             if v:
                 want.append([name, str(v)])
-    return msgs[0][2] == sorted(want)
+    full = [["start", 403, sorted(want)], ["body", FORBIDDEN_S]]
+    sf = case.get("send_fail")
+    if sf and sf[0] < 2:
+        full = full[: sf[0] + 1]      # the failing send call is the last one made
+    return msgs == full
 
 
 def check_cases(chk, cases, replay=False):
@@ -401,7 +403,7 @@ def check_cases(chk, cases, replay=False):
 
     results = asyncio.run(run_all())
     lines = [model_line(c, es) for c, (_, es) in zip(cases, results)]
-    models = [_canon_model(lib.dec(x)) for x in lib.run_model("asgi", lines)]
+    models = [_canon_model(lib.dec(x)) for x in lib.run_model("asgi", lines, chunk=250, procs=16)]
 
     for c, (obs, es), m in zip(cases, results, models):
         cat = _category(c, es)
@@ -493,16 +495,17 @@ def check_cases(chk, cases, replay=False):
         if imsgs != mmsgs:
             bad = True
             if cat == "denied":
-                ib = [x for x in imsgs if x[0] == "body"]
-                mb = [x for x in mmsgs if x[0] == "body"]
-                ih = [x for x in imsgs if x[0] == "start"]
-                mh = [x for x in mmsgs if x[0] == "start"]
-                if ib != mb or len(imsgs) != len(mmsgs) or [x[1] for x in ih] != [x[1] for x in mh]:
-                    clause = ("a denial is exactly one http.response.start (403) + one http.response.body with the "
-                              "fixed Forbidden document (c20_single_generic_403 / c20_body_constant)")
+                def fixed_part(msgs):
+                    return [[x[0], x[1]] + ([[h for h in x[2] if not str(h[0]).startswith("x-rbacx-")]]
+                                            if x[0] == "start" and isinstance(x[2], list) else [])
+                            for x in msgs]
+                if fixed_part(imsgs) != fixed_part(mmsgs):
+                    clause = ("a denial is exactly one http.response.start (status 403, content-type, content-length "
+                              "of the body) followed by one http.response.body with the fixed Forbidden document "
+                              "(c20_single_generic_403 / c20_body_constant / c20_denial_messages_explicit)")
                 else:
-                    clause = ("reason / rule id / policy id appear only as X-RBACX-* headers and only when "
-                              "add_headers is on (c20_ids_only_in_headers_when_enabled)")
+                    clause = ("reason / rule id / policy id appear only as X-RBACX-* headers, with the decision's "
+                              "values, and only when add_headers is on (c20_ids_only_in_headers_when_enabled)")
             else:
                 clause = "nothing may be sent by the middleware unless it denies (c20_passthrough / " \
                          "c20_raise_blocks_downstream / c20_downstream_iff_allowed)"
@@ -576,18 +579,30 @@ def gen_enum_b(chk):
                "send_fail": sf, "app_exc": ae}
 
 
+def gen_enum_c(chk):
+    """the enforced path, complete product over a richer decision pool (stub guard)."""
+    for ah, al, ef, re, ru, po in itertools.product(
+            (False, True), (True, False, 0, 1, "", None), ("permit", "deny"),
+            (None, "", "why", "Forbidden", "é\n", 5), (None, "", "r1", "Forbidden", "q\"'"),
+            (None, "", "p1", "detail", 0)):
+        yield {"fam": "enumC", "mode": "enforce", "add_headers": ah, "scope": {"type": "http", "path": "/"},
+               "builder": RET4, "eval": {"k": "ret", "d": _dec(al, ef, re, ru, po)}, "send_fail": None,
+               "app_exc": None}
+
+
 HOSTILE_STR = [
     None, "", "Forbidden", "detail", "no_match", "explicit_deny", "obligation_failed", "é", "日本語-ルール", "r\"1", "it's",
     "line1\nline2", "a\r\nSet-Cookie: x=1", "{\"detail\": \"Forbidden\"}", "\x00", "\x7f", " ", "0", "None", "False",
-    "x" * 5000, "🔒" * 40, "\\u0041", "<script>alert(1)</script>", "%s%n", "﻿bom", "ä" * 300,
+    "🔒" * 40, "\\u0041", "<script>alert(1)</script>", "%s%n", "\ufeffbom", "ä" * 300,
 ]
+LONG_STR = ["x" * 5000, "Forbidden" * 600, "é" * 3000]
 HOSTILE_OTHER = [0, 1, 5, -3, True, False, 1.5, 0.0, [], ["a"], [1, "b"], {}, {"k": 1}, ["é"], 10 ** 30]
-ALLOWED_POOL = [True, False, True, False, True, False, 0, 1, "", "no", "yes", None, [], [0], 0.0, 2, {}]
-MODE_POOL = ["enforce"] * 8 + ["inject", "inject", "ENFORCE", "Enforce", "enforce ", " enforce", "", "audit", "off",
+ALLOWED_POOL = [True, False, False, False, True, False, False, 0, 1, "", "no", "yes", None, [], [0], 0.0, 2, {}]
+MODE_POOL = ["enforce"] * 40 + ["inject", "inject", "ENFORCE", "Enforce", "enforce ", " enforce", "", "audit", "off",
                                 None, True, 1, 0, ["enforce"], {"enforce": True}, "enforcé"]
-TYPE_POOL = ["http"] * 8 + ["websocket", "websocket", "lifespan", "lifespan", "unknown", "HTTP", "https", "http ",
+TYPE_POOL = ["http"] * 40 + ["websocket", "websocket", "lifespan", "lifespan", "unknown", "HTTP", "https", "http ",
                             "", "<missing>", None, 1, True, ["http"], {"http": 1}]
-BUILDER_POOL = [RET4] * 8 + [None, None, {"k": "raise", "exc": "RuntimeError"}, {"k": "raise", "exc": "KeyError"},
+BUILDER_POOL = [RET4] * 30 + [None, None, {"k": "raise", "exc": "RuntimeError"}, {"k": "raise", "exc": "KeyError"},
                              {"k": "raise", "exc": "PermissionError"}, {"k": "raise", "exc": "CancelledError"},
                              {"k": "raise", "exc": "VerifBaseExc"}, {"k": "ret", "n": 0}, {"k": "ret", "n": 1},
                              {"k": "ret", "n": 3}, {"k": "ret", "n": 5}, {"k": "ret", "n": 6}, {"k": "notiter"}]
@@ -595,6 +610,8 @@ BUILDER_POOL = [RET4] * 8 + [None, None, {"k": "raise", "exc": "RuntimeError"}, 
 
 def _hostile_field(rng):
     x = rng.random()
+    if x < 0.02:
+        return rng.choice(LONG_STR)
     if x < 0.75:
         return rng.choice(HOSTILE_STR)
     if x < 0.9:
@@ -749,8 +766,8 @@ def corpus_cases():
     if d.is_dir():
         for f in sorted(d.glob("*.json")):
             data = json.loads(f.read_text())
-            for c in (data["cases"] if "cases" in data else [data["case"]]):
-                c = lib.unjson(c)
+            for c in (data["cases"] if "cases" in data else [data]):
+                c = lib.unjson(c["case"] if "case" in c else c)
                 c.setdefault("fam", "corpus:" + f.stem)
                 out.append(c)
     return out
@@ -761,7 +778,8 @@ def run(chk):
                 "{enforce, inject, ENFORCE, audit} x add_headers x scope type {http, websocket, lifespan, unknown, "
                 "missing} x builder {ok, raising, absent, 3 objects, not iterable} x 49 evaluation outcomes (allowed x "
                 "effect x reason x rule id x policy id, raising) with a stub guard; failing-send x raising-downstream "
-                "product; the real Guard over 14 policies/policy sets x 3 requests x mode x add_headers x scope type x "
+                "product; the enforced path over allowed {True, False, 0, 1, '', None} x effect x 6 reasons x 5 rule ids "
+                "x 5 policy ids x add_headers; the real Guard over 14 policies/policy sets x 3 requests x mode x add_headers x scope type x "
                 "builder; then seeded random hostile decisions (non-ASCII, quotes, CR/LF, 5000 chars, the word "
                 "Forbidden, None, non-strings, truthy/falsy non-bool `allowed`), hostile modes/scope types, stale "
                 "'rbacx_guard' keys, and real-Guard policies with hostile rule/policy ids. non-trivial = the access "
@@ -781,9 +799,10 @@ def run(chk):
     if corp:
         check_cases(chk, corp)
     quick = chk.tier == "quick"
-    cases = list(gen_enum_a(chk)) + list(gen_enum_b(chk)) + list(gen_guard_enum(chk)) + list(gen_ood_surrogate(chk))
+    cases = (list(gen_enum_a(chk)) + list(gen_enum_b(chk)) + list(gen_enum_c(chk)) + list(gen_guard_enum(chk))
+             + list(gen_ood_surrogate(chk)))
     chk.exhaustive = True
-    cases += list(gen_hostile(chk, 6000 if quick else 150000))
+    cases += list(gen_hostile(chk, 8000 if quick else 150000))
     cases += list(gen_guard_hostile(chk, 800 if quick else 12000))
     step = 20000
     for i in range(0, len(cases), step):
